@@ -1,13 +1,16 @@
 import CJ.Drv.Loop
 import CJ.Drv.Detector
 import CJ.Drv.Announce
+import CJ.Drv.PacketPath
 /-! Driver for C10: the station → detector channel model (`c10|`: messages, sweeps and lookups on one
 detector) the registry ∥ detector history model (`c10h|`) and the station scenarios around it
-(`c10s|`: ingest pipeline, shutdown sequence, availability of the channel). -/
+(`c10s|`: ingest pipeline, shutdown sequence, availability of the channel) and the detector's packet
+path (`c10p|`: which packets are forwarded, session extension, watched flows). -/
 open CJ.Drv
 
 def main : IO Unit := runDriver fun
   | "c10" :: args => Detector.handle args
   | "c10h" :: args => Announce.handle args
   | "c10s" :: args => Announce.handleStation args
+  | "c10p" :: args => PacketPath.handle args
   | _ => none
